@@ -15,7 +15,9 @@ EXHAUSTIVE = True
 RULE = ("identities: for each of the 4 parts every value in {0, ~0, 1<<k, ~(1<<k) | k=0..31} x 3 backgrounds (792), no slave, "
         "pairs of consecutive scans on one master; faults: every reply position of a fast scan x {silence, wrong cs} with <= D "
         "faults; services: inquire x5, configure node id 0..255, bit timing 0..255, store, activate, switch global, switch "
-        "selective, each undisturbed and with {silence, wrong cs, every error code 1..255} on its reply. non-trivial = "
+        "selective, each undisturbed and with {silence, wrong cs, every error code 1..255} on its reply; histories: every "
+        "sequence of <= d events over {scan, switch global x2, selective, inquire x5, configure node id x2, store, device := A / "
+        "B / none} on one master, the last operation compared with a fresh master on a copy of the device. non-trivial = "
         "identities with a single bit set/cleared plus every faulted execution")
 ASSUMPTIONS = [
     "2^128 identities are reduced to the per-bit / per-part alphabet (the scan treats each bit of each part independently)",
@@ -44,6 +46,10 @@ def cases(tier, seed):
     for svc in ("inquire", "node_id", "bit_timing", "store", "misc"):
         out.append({"part": "services", "svc": svc})
     out.append({"part": "after-dups"})
+    # operation histories on ONE master object while the device behind the bus changes
+    for first in range(len(HIST_EVENTS)):
+        for init in ("waiting", "configuration"):
+            out.append({"part": "history", "first": first, "init": init, "depth": 4 if tier == "quick" else 5})
     return out
 
 
@@ -292,7 +298,103 @@ def run_after_duplicates(case, st):
                 st.outcome("service after duplicates ok")
 
 
+ID_A = [0x22, 0x12345678, 0x555, 0xABCDEF]
+ID_B = [0x23, 0x92345678, 0x0, 0xFFFFFFFF]
+HIST_EVENTS = ["scan", "global-config", "global-waiting", "selective", "inq-5A", "inq-5B", "inq-5C", "inq-5D", "inq-node",
+               "conf-node-9", "conf-node-255", "store", "dev-A", "dev-B", "dev-none"]
+
+
+def _hist_do(lss, cur, e):
+    """Apply one history event; returns a comparable result for master operations, None for device changes."""
+    from canopen.lss import LssError
+    if e.startswith("dev-"):
+        cur["slave"] = {"dev-A": LssSlave(ID_A), "dev-B": LssSlave(ID_B), "dev-none": LssSlave([1, 2, 3, 4], present=False)}[e]
+        return None
+    try:
+        if e == "scan":
+            r = lss.fast_scan()
+            return ("ok", r[0], None if r[1] is None else list(r[1]))
+        if e == "global-config":
+            return ("ok", lss.send_switch_state_global(lss.CONFIGURATION_STATE))
+        if e == "global-waiting":
+            return ("ok", lss.send_switch_state_global(lss.WAITING_STATE))
+        if e == "selective":
+            return ("ok", lss.send_switch_state_selective(*cur["slave"].id))
+        if e.startswith("inq-5"):
+            return ("ok", lss.inquire_lss_address(int(e[4:], 16)))
+        if e == "inq-node":
+            return ("ok", lss.inquire_node_id())
+        if e.startswith("conf-node-"):
+            return ("ok", lss.configure_node_id(int(e[10:])))
+        if e == "store":
+            return ("ok", lss.store_configuration())
+    except LssError:
+        return ("LssError",)
+    except Exception as ex:  # noqa: BLE001
+        return ("EXC", type(ex).__name__)
+    raise KeyError(e)
+
+
+def run_history(case, st):
+    """Differential oracle: after any history, an operation on the used master gives what a FRESH master gives against
+    a copy of the device in the same state (the master keeps no memory of earlier devices or answers), and leaves the
+    device in the same state."""
+    import copy
+    import itertools
+    import canopen
+
+    def world(slave):
+        simenv.new_world()
+        bus = simenv.SimBus("inline")
+        net = canopen.Network()
+        bus.attach(net, "master")
+        cur = {"slave": slave}
+        bus.add_device(lambda cid, d, rem: cur["slave"].on_frame(cid, d, rem), "slave")
+        return net, cur
+
+    def slave_state(sl):
+        return (sl.state, sl.node_id, sl.pos, sl.stored, sl.bit_timing, sl.present, tuple(sl.id))
+
+    if "seq" in case:
+        seqs = [case["seq"]]
+    else:
+        f = HIST_EVENTS[case["first"]]
+        seqs = [[f] + list(r) for n in range(0, case["depth"]) for r in itertools.product(HIST_EVENTS, repeat=n)]
+    for seq in seqs:
+        if seq[-1].startswith("dev-"):
+            continue
+        st.evaluations += 1
+        st.traces += 1
+        st.transitions += len(seq)
+        net, cur = world(LssSlave(ID_A))
+        if case.get("init") == "configuration":
+            net.lss.send_switch_state_global(net.lss.CONFIGURATION_STATE)
+        for e in seq[:-1]:
+            _hist_do(net.lss, cur, e)
+        twin = copy.deepcopy(cur["slave"])
+        twin.frames, twin.violations = [], []
+        got = _hist_do(net.lss, cur, seq[-1])
+        end = slave_state(cur["slave"])
+        net2, cur2 = world(twin)
+        want = _hist_do(net2.lss, cur2, seq[-1])
+        want_end = slave_state(cur2["slave"])
+        rc = {"part": "history", "seq": list(seq), "init": case.get("init")}
+        if len(seq) > 1:
+            st.nontrivial_n += 1
+        if got != want:
+            st.violation(f"C18:history:{seq[-1]}:differs-from-fresh-master", rc, want, got)
+        elif end != want_end:
+            st.violation(f"C18:history:{seq[-1]}:device-left-in-another-state", rc, want_end, end)
+        elif got[0] == "EXC":
+            st.violation(f"C18:history:{seq[-1]}:wrong-exception", rc, "result or LssError", got)
+        else:
+            st.outcome(f"history {seq[-1]} -> {got[0]}")
+    st.sample({"history first": case.get("first"), "sequences": len(seqs)}, cap=3)
+
+
 def run_case(case, st):
+    if case["part"] == "history":
+        return run_history(case, st)
     if case["part"] == "after-dups":
         return run_after_duplicates(case, st)
     {"ident": run_ident, "pairs": run_pairs, "scanfaults": run_scanfaults, "services": run_services}[case["part"]](case, st)
